@@ -8,7 +8,7 @@ RULE = ('structured lattice: secs {0,1,58,59,60,3599,3600,43199,43200,86340,8639
         '+-0.5s,+-1s,+-59/60/61s,+-86399/86400/86401s,+-172800s,TimeDelta MIN/MAX}; all pairs of lattice times for '
         'differences; constructor/field arguments {0..61, 10^9+-1, 2*10^9+-1, u32::MAX}; core Durations incl. '
         'multiples of 86400/172800 and u64::MAX; offsets {0,+-1,+-3599,+-3600,+-86399}; plus seeded random draws; '
-        'thorough: all 86400 seconds x 7 fracs x 40 durations')
+        'thorough: all 86400 seconds x 7 fracs, each with 6 of 40 fixed durations in rotation (every duration meets every second-of-minute and every frac), add and sub alternating; date-times (range ends, leap years) x leap/non-leap times for ndt.add/ndt.sub')
 
 MAXS, MAXN = 9223372036854775, 807000000
 MINS, MINN = -9223372036854776, 193000000
@@ -157,6 +157,19 @@ def cases(tier, rng):
         for o in OFFS:
             for op in ('t.addoff', 't.suboff', 't.addoffd', 't.suboffd'):
                 yield case_line(op, t, o)
+    # ---- date-times with (and without) a leap operand: the carry goes to the date
+    dates = [[2015, 181], [2016, 366], [2016, 1], [2015, 365], [2015, 1], [1970, 1], [0, 1], [-1, 365],
+             [262142, 365], [262142, 364], [-262143, 1], [-262143, 2], [2000, 60], [1900, 59]]
+    ntimes = [[s, f] for s in (0, 59, 3599, 43200, 86340, 86398, 86399) for f in (0, G - 1, G, 3 * G // 2, 2 * G - 1)]
+    for dt in dates:
+        for t in ntimes:
+            durs = [td_of_ns(n) for n in dur_lattice(t[1])[::2]] + [[MAXS, MAXN], [MINS, MINN]]
+            for d in durs:
+                yield case_line('ndt.add', dt + t, d)
+                yield case_line('ndt.sub', dt + t, d)
+            for d in durs[::7]:
+                yield case_line('ndt.opadd', dt + t, d)
+                yield case_line('ndt.opsub', dt + t, d)
     # invalid arguments (must be BADARGS on both sides)
     yield case_line('t.add', [86400, 0], [0, 0])
     yield case_line('t.add', [0, 2 * G], [0, 0])
@@ -168,7 +181,13 @@ def cases(tier, rng):
     for _ in range(n):
         r = rng.random()
         t = rand_time(rng)
-        if r < 0.4:
+        if r < 0.08:
+            y = rng.choice([rng.randint(-262143, 262142), rng.randint(1900, 2100), 262142, -262143])
+            o = rng.choice([1, 2, 59, 60, 365, rng.randint(1, 365)])
+            k = rng.random()
+            d = rand_dur(rng, t[1]) if k < 0.7 else td_of_ns(rng.randint(-2, 2) * 86400 * G * rng.choice([1, 365, 146097]) + rng.randint(-3 * G, 3 * G))
+            yield case_line(rng.choice(['ndt.add', 'ndt.sub', 'ndt.add', 'ndt.sub', 'ndt.opadd', 'ndt.opsub']), [y, o] + t, d)
+        elif r < 0.4:
             yield case_line(rng.choice(['t.add', 't.sub', 't.add', 't.sub', 't.opadd', 't.opsub']), t, rand_dur(rng, t[1]))
         elif r < 0.6:
             u = rand_time(rng)
@@ -205,5 +224,7 @@ def cases(tier, rng):
         for s in range(86400):
             for f in FRACS:
                 t = [s, f]
-                for i, d in enumerate(d40):
-                    yield case_line('t.add' if (s + i) % 2 == 0 else 't.sub', t, d)
+                i0 = (s * 7 + FRACS.index(f)) * 6
+                for j in range(6):
+                    d = d40[(i0 + j) % 40]
+                    yield case_line('t.add' if (s + j) % 2 == 0 else 't.sub', t, d)
